@@ -59,6 +59,16 @@ add("C20", "harness", "exploration", "model-based property testing: generated fr
     "SeqLines stepped from both ends with len()/size_hint() queried after every step and compared with a two-index Vec model; adaptor programs compared with the same adaptors over the model; record-set and owned-record iterators walked past the end. Exhaustive for all step lists <= 8 on 0..5 lines.",
     "the Vec model is the definition of the iterator contracts")
 
+add("C09", "harness", "exploration", "property-based testing: generated histories with recording / refusing / slowly growing policies, invariants over the policy log and the source-call log (proptest) + pure-function PBT of the built-in policies",
+    "Invariants over the recorded policy requests and source reads: chain of grow_to arguments, read requests bounded by the adopted size, growth only when the record being parsed does not fit (one byte of look-ahead slack), BufferLimit iff refusal, replaced policy never asked, long fitting streams never grow; documented arithmetic of StdPolicy/DoubleUntil/DoubleUntilLimited around thresholds up to 2^40.",
+    "trusted: the recording policy and scripted source; extents from the reference model; the one-byte slack rule (DESIGN.md C09)")
+add("C14", "harness", "fault_enumeration", "fault injection enumerated over every source call of generated histories (proptest generates the cases, the fault index k is exhaustive per case); Interrupted patterns compared differentially",
+    "For every generated (input, configuration, history) a failure is injected at the k-th source call for every k of the fault-free run (reads and seeks), cycling through 10 error kinds: the API call that hit it must return Err(Io) with that kind, earlier steps equal the fault-free run (which itself satisfies the cursor model). Interrupted patterns must leave the whole trace unchanged.",
+    "one fault per run; what happens after the failing call is C06's subject; trusted: scripted source")
+add("C18", "harness", "exploration", "property-based testing with a resource oracle: counting global allocator with a thread-local window around every steady-state call (proptest)",
+    "Long generated documents x capacities x modes (next / reused record set) x both formats: every dominated call after warm-up must perform 0 heap allocations (views into the buffer), the set buffer capacity and the reader capacity stay unchanged.",
+    "allocations are observed through #[global_allocator] only; domination rule skips calls that may legitimately enlarge an offset vector")
+
 NOT_YET = "check under construction (framework being built); will be claimed once its command exists"
 
 def main():
